@@ -57,6 +57,10 @@ def run(ctx, res):
         LR.rule_l_recheck(la, res, site)
         LR.rule_l_cv(la, res, site)
 
+    # balanced locking on every path of every camera function (a frame call
+    # that returns with im.lock held blocks stop forever)
+    LR.rule_l_pair(la, res, [f for f in prog.all_funcs() if f.file.endswith("simcams/simulated.camera.c")])
+
     # ---- R-STOP-WAKES: stop wakes every waiter before joining ------------
     res.touched(f_stop)
     joins = paths.calls_to(prog, f_stop, {"thread_join"})
@@ -238,6 +242,7 @@ def run(ctx, res):
             res.fail("R-RESTART", inst, "R-RESTART|%s|%s" % (f_start.name, field), f_start.loc(),
                      "%s can create the streamer thread without resetting %s: ids continue from the previous run" % (f_start.name, field),
                      {"path_blocks": w})
+    res.require_min("L-PAIR", 15)
     res.require_min("L-CV", 8)
     res.require_min("L-RECHECK", 2)
     res.require_min("R-STOP-WAKES", 3)
